@@ -133,7 +133,7 @@ Verdict(name, x, g) ==
     [] name = "C17_BindingFunctional"    -> V(TRUE, C17_BindingFunctional(s))
     [] name = "C17_ListMatchesBinding"   -> V(TRUE, C17_ListMatchesBinding(s))
     [] name = "C17_SidPayAddrBound"      -> V(TRUE, C17_SidPayAddrBound(s, g.cfg))
-    [] name = "C17_KidInjective"         -> V(TRUE, C17_KidInjective(s))
+    [] name = "C17_KidInjective"         -> V(TRUE, C17_KidInjective(s, g.cfg))
     [] name = "C17_BindingProven"        -> V(IsTx(x), C17_BindingProven(x))
     [] name = "C17_PayAddrChange"        -> V(IsTx(x), C17_PayAddrChange(x, g.cfg))
     [] name = "C19_OnlyFishmen"          -> V(C19_app(x), C19_OnlyFishmen(x, g.cfg))
